@@ -36,9 +36,17 @@ func (ga *GA) selectorActions() []*peg.Node {
 			continue
 		}
 		found := false
+		isSel := func(t types.Type) bool {
+			nn, ok := t.(*types.Named)
+			return ok && nn.Obj().Name() == "Selector" && nn.Obj().Pkg() == ga.prog.Grammar.Types
+		}
 		ast.Inspect(fd.Body, func(x ast.Node) bool {
-			if cl, ok := x.(*ast.CompositeLit); ok {
-				if nn, ok := info.Types[cl].Type.(*types.Named); ok && nn.Obj().Name() == "Selector" && nn.Obj().Pkg() == ga.prog.Grammar.Types {
+			if cl, ok := x.(*ast.CompositeLit); ok && isSel(info.Types[cl].Type) {
+				found = true
+			}
+			// or the action returns a Selector value that a constructor built
+			if rs, ok := x.(*ast.ReturnStmt); ok && len(rs.Results) >= 1 {
+				if tv, ok := info.Types[rs.Results[0]]; ok && tv.Type != nil && isSel(tv.Type) {
 					found = true
 				}
 			}
